@@ -112,8 +112,12 @@ FALL = ('fall',)     # block completed normally
 
 def is_class_setting(ci, name):
     node = ci.attrs.get(name)
-    return node is not None and isinstance(node, ast.Constant) and isinstance(node.value, bool) \
-        and not name.isupper() and not name.startswith('_')
+    if node is None or name.isupper() or name.startswith('_') or (ci.slots is not None and name in ci.slots):
+        return False
+    if isinstance(node, ast.Constant) and isinstance(node.value, bool):
+        return True
+    # an empty tuple / list as a class-level default: an extension point the user fills (extra columns, hooks)
+    return isinstance(node, (ast.Tuple, ast.List)) and not node.elts
 
 
 def class_settings(program):
@@ -2227,7 +2231,10 @@ class Evaluator:
     def _class_attr(self, ci, name, depth):
         key = (ci.qual, name, self.backend)
         if Evaluator.SYMBOLIC_SETTINGS and is_class_setting(ci, name):
-            return T.sym('SETTING:%s.%s' % (ci.name, name), type='bool')
+            node = ci.attrs.get(name)
+            if isinstance(node, ast.Constant):
+                return T.sym('SETTING:%s.%s' % (ci.name, name), type='bool')
+            return T.sym('SETTING:%s.%s' % (ci.name, name), type='tuple' if isinstance(node, ast.Tuple) else 'list')
         if key in self._modconst_cache:
             return self._modconst_cache[key]
         fr = Frame(None, {}, Facts(), ci.module, ci, depth + 1)
